@@ -14,3 +14,4 @@ pub mod c17sctp;
 pub mod c19;
 pub mod dtls_attacker;
 pub mod c14pc;
+pub mod dtls_ref;
